@@ -776,8 +776,15 @@ func (e *Env) evalIndex0(t *ast.IndexExpr) Val {
 		if fr == nil {
 			fr = &Frame{vc: vc}
 		}
-		_, val := fr.mapRead(e.heap, u, x.T(), vc.mapKey(u.Key(), Val{Typ: u.Key(), L: i.L}))
-		return val
+		has, val := fr.mapRead(e.heap, u, x.T(), vc.mapKey(u.Key(), Val{Typ: u.Key(), L: i.L}))
+		// a nil map has no entries: indexing it yields the zero value
+		z := vc.zeroVal(u.Elem())
+		ok := and(not(eq(x.T(), "0")), has)
+		out := Val{Typ: u.Elem()}
+		for k := range val.L {
+			out.L = append(out.L, ite(ok, val.L[k], z.L[k]))
+		}
+		return out
 	case *types.Basic:
 		if isStringT(x.Typ) {
 			return intVal("(strbyte " + x.T() + " " + i.T() + ")")
